@@ -8,7 +8,7 @@ EXCEPTIONS = {
     "R-NULL|Shaper._launch_instance_tracker|self._instance_tracker|self._instance_tracker.track_instances":
         "get_instance_tracker returns None only when there are neither selectors nor class targets; "
         "Shaper._check_target_classes rejects that configuration (decision table checked under C20 D-a)",
-    "R-NULL|_query_endpoint_json_result|last_error|last_error.msg":
+    "R-NULL|_query_endpoint_json_result|<local>|$1.msg":
         "the retry loop body runs at least once: max_retries is a positive constant at every call site "
         "(5 or 10), so last_error is assigned before the loop can end without returning",
     # ------------------------------------------------------------------- R-RET
@@ -39,9 +39,9 @@ EXCEPTIONS = {
     # ------------------------------------------------------------------ R-SENT
     "R-SENT|BigTtlTriplesYielder._next_line_token|a_line.find('>', start_index)":
         "the token starts with '<': a valid Turtle statement always closes an IRI reference with '>' on the same line (dialect of C07)",
-    "R-SENT|NtTriplesYielder._look_for_last_index_of_uri_token|target_substring.find('>')":
+    "R-SENT|NtTriplesYielder._look_for_last_index_of_uri_token|$1.find('>')":
         "the token starts with '<': every IRIREF of a valid N-Triples statement is closed by '>'",
-    "R-SENT|NtTriplesYielder._look_for_last_index_of_literal_token|target_substring[index_of_quotes + 1:].find('\"')":
+    "R-SENT|NtTriplesYielder._look_for_last_index_of_literal_token|$1[$2 + 1:].find('\"')":
         "the token starts with a quote: a valid N-Triples literal always has its closing quote on the line",
     "R-SENT|parse_literal|an_elem.find('\"', 1)":
         "parse_literal is only called (tune_token) on tokens that start with a quote, produced by scanners that located the closing quote",
